@@ -13,6 +13,7 @@ Response, per operation k (joined by " ; "):
 -/
 import DarsiaModel.Basic
 import DarsiaModel.Stateful
+import DarsiaModel.SolverArith
 open Darsia Darsia.Stateful
 
 def pCoef : P Coef := do
@@ -77,6 +78,80 @@ def showOut : Out → String
   | .none => "none"
   | .noObject => "noobj"
 
+def pArr : P Arr := do
+  let shape ← P.list P.nat
+  let vals ← P.list P.rat
+  pure ⟨shape, vals.toArray⟩
+
+def pEnvEntry : P (Nat × Arr) := do
+  let id ← P.nat; let a ← pArr; pure (id, a)
+
+def dataOf : Op → Option Nat
+  | .jacCall _ _ d => some d
+  | .mgCall _ d => some d
+  | .h1 _ _ _ _ _ d => some d
+  | _ => none
+
+def flip0 (a : Arr) : Arr :=
+  Arr.tab a.shape fun idx => a.get (modifyAt idx 0 fun i => listGetD a.shape 0 1 - 1 - i)
+
+def showArrs (as : List Arr) : String := showRats (as.flatMap fun a => a.data.toList)
+
+/-- results of a regulariser come back channel by channel; the implementation stores them with the channel index last -/
+def interleave (as : List Arr) : List Rat :=
+  match as with
+  | [] => []
+  | a :: _ => (List.range a.data.size).flatMap fun k => as.map fun b => b.data.getD k 0
+
+/-! canonical trace tokens: what the harness observes on the live objects (instrumented `Jacobi._diag` / `__call__`,
+`MG.operator`, `update_params`, `AndersonAcceleration.__call__` / `reset`, `linear_solve` set-up vs re-use) -/
+
+def tCoef : Coef → String
+  | .unset => "None"
+  | .scalar v => showRat v
+  | .array i w => s!"a{i}R{(w.filter (· == true)).length}" ++ (if w.any (· == false) then "P" else "")
+
+def tOptCoef : Option Coef → String
+  | none => "-"
+  | some c => tCoef c
+
+def tOptNat : Option Nat → String
+  | none => "-"
+  | some n => toString n
+
+def tJac (r : JacRun) : String :=
+  s!"J({r.maxiter};{r.diag.p.dim},{tCoef r.diag.p.mass},{tCoef r.diag.p.diff},{showRat r.diag.h})"
+
+def tEvent : MGEvent → String
+  | .smooth r => tJac r
+  | .operator p h => s!"O({p.dim},{tCoef p.mass},{tCoef p.diff},{showRat h})"
+
+def traceOut (w0 : World) (op : Op) : Out → String
+  | .jac r => tJac r
+  | .mg es => " ".intercalate (es.map tEvent)
+  | .solves rs =>
+    let u := match op with
+      | .h1 _ mu omega dim _ _ => s!"U({dim},{tCoef omega},{tCoef mu})"
+      | .sb _ ell omega dim _ _ => s!"U({dim},{tCoef omega},{tCoef ell})"
+      | _ => "?"
+    " ".intercalate (u :: (rs.flatMap fun es => es.map tEvent))
+  | .aa rs =>
+    match op with
+    | .anderson i _ =>
+      match w0.aas[i]? with
+      | some a => " ".intercalate ((List.range rs.length).map fun k =>
+          let t := a.trace k
+          s!"A({k};{if t.1 then 1 else 0};{t.2})")
+      | none => "?"
+    | _ => "?"
+  | .dist ss => " ".intercalate (ss.map fun s => if s.2.2 then "L(S)" else "L(R)")
+  | .none =>
+    match op with
+    | .jacUpdate _ d m f => s!"U({tOptNat d},{tOptCoef m},{tOptCoef f})"
+    | .mgUpdate _ d m f => s!"U({tOptNat d},{tOptCoef m},{tOptCoef f})"
+    | _ => ""
+  | .noObject => "noobj"
+
 def scenario : P String := do
   let restore ← P.bool
   let keep ← P.bool
@@ -84,15 +159,27 @@ def scenario : P String := do
   let _ ← P.tok; let ms ← P.list pMG
   let _ ← P.tok; let as ← P.list pAA
   let _ ← P.tok; let nw ← P.nat
+  let _ ← P.tok; let envl ← P.list pEnvEntry
+  let _ ← P.tok; let datas ← P.list pArr
   let _ ← P.tok; let ops ← P.list pOp
   P.done
+  let env : Nat → Option Arr := fun id => (envl.find? fun e => e.1 == id).map (·.2)
   let w0 := World.init js ms as nw
   let rec go (pre : List Op) : List Op → List String
     | [] => []
     | op :: rest =>
       let a := (step restore keep (run restore keep w0 pre) op).2
       let b := (step restore keep (run restore keep w0 (pre.flatMap Op.settingPart)) op).2
-      ((if a == b then "eq " else "ne ") ++ showOut a) :: go (pre ++ [op]) rest
+      let num := match dataOf op with
+        | none => "-"
+        | some d =>
+          match datas[d]? with
+          | none => "-"
+          | some x =>
+            match evalOut env op x (flip0 x) a with
+            | some rs => showRats (interleave rs)
+            | none => "!"
+      ((if a == b then "eq " else "ne ") ++ showOut a ++ " | " ++ num ++ " | " ++ traceOut w0 op a) :: go (pre ++ [op]) rest
   pure (" ; ".intercalate (go [] ops))
 
 def dispatch : List String → Option String
